@@ -983,3 +983,7 @@ mod tests {
         assert_eq!(config.algorithm.initial_wander, 1e-7);
     }
 }
+
+#[cfg(all(test, pendulum_project_ntpd_rs_verif))]
+#[path = "/verif/harness/ntpd/hook_daemon__config__mod.rs"]
+mod verif_hook;
